@@ -535,3 +535,172 @@ def gen_shared_group(rng, charsets=None):
             text += f'\nmsgid "{sp1}"\nmsgstr "{sp2}"\n'
         files.append((cs, cat, text))
     return files
+
+# ----------------------------------------------------------------------------- size / offset boundary families
+# A deterministic constructor per family: (charset, family, offset S, variant seed) -> (catalog, text) such that a *late feature*
+# (the header's Content-Type line, an obsolete entry, a flag line, a charset-dependent escape, the end of a very long string) starts
+# exactly at byte offset S of the file.  Any "look only at the first N bytes / lines" short-cut in the loader is exposed by the
+# family whose S crosses N; because the constructor is a function of S, the failing size can be minimised by bisection.
+
+BOUNDARY_SIZES = [(1 << k) + d for k in range(10, 21) for d in (-1, 0, 1)]
+PREFIX_KINDS = ['tcomment', 'blank', 'ignored', 'obsolete', 'longline', 'entries', 'longstring']
+LATE_FEATURES = ['header', 'obsolete-entry', 'flags', 'escape']
+
+def _fill_lines(total, make, minlen, width=64):
+    """line bodies (each rendered by make(n) to exactly n bytes incl. its line feed) adding up to `total` bytes"""
+    out = []
+    if total <= 0:
+        return out
+    full, r = divmod(total, width)
+    sizes = [width] * full
+    if r:
+        if r >= minlen or not sizes:
+            sizes.append(max(r, minlen))
+        else:
+            sizes[-1] -= (minlen - r)
+            sizes.append(minlen)
+    return [make(n) for n in sizes]
+
+def boundary_file(charset, prefix_kind, feature, S, variant=0):
+    """→ (catalog, text, info).  All filler is ASCII, so byte offsets equal character offsets up to the feature."""
+    rng = random.Random(f'{charset}/{prefix_kind}/{feature}/{variant}')
+    rep = repertoire(charset) or []
+    nonascii = (rep[variant % len(rep)] if rep else 'x')
+    head_comment_lines, pre_entries, noise_before = [], [], ''
+    hdr_value = f'Project-Id-Version: x 1\nContent-Type: text/plain; charset={charset}\nContent-Transfer-Encoding: 8bit\n'
+    header_entry = blank_entry(); header_entry['msgid'] = ''; header_entry['msgstr'] = hdr_value
+    header_lines = 'msgid ""\nmsgstr ""\n"Project-Id-Version: x 1\\n"\n'
+    ctype_line = f'"Content-Type: text/plain; charset={charset}\\n"\n'
+    header_tail = '"Content-Transfer-Encoding: 8bit\\n"\n'
+    # the feature entry (after the header entry unless the feature IS the header)
+    fe = blank_entry()
+    fe['msgid'] = 'late ' + nonascii
+    fe['msgstr'] = nonascii + ' end'
+    esc = ''.join('\\x%02x' % b for b in nonascii.encode(charset)) if rep else 'x'
+    if feature == 'header':
+        # the Content-Type line starts at S: everything before it is prefix + the first header lines
+        budget = S - len(header_lines)
+        feature_text = ''
+    else:
+        budget = S - len(header_lines) - len(ctype_line) - len(header_tail) - 1
+    if budget < 0:
+        return None
+    text_prefix = ''
+    cat_entries_before = []
+    if prefix_kind == 'tcomment' and feature == 'header':
+        lines = _fill_lines(budget, lambda n: '# ' + 'c' * (n - 3) + '\n', 4)
+        text_prefix = ''.join(lines)
+        head_comment_lines = [l[2:-1] for l in lines]
+    elif prefix_kind == 'blank':
+        text_prefix = ''.join(_fill_lines(budget, lambda n: ' ' * (n - 1) + '\n', 1))
+    elif prefix_kind == 'ignored':
+        text_prefix = ''.join(_fill_lines(budget, lambda n: '#~| ' + 'i' * (n - 5) + '\n', 6))
+    elif prefix_kind == 'longline':
+        if feature == 'header':
+            if budget < 4:
+                return None
+            text_prefix = '# ' + 'L' * (budget - 3) + '\n'
+            head_comment_lines = ['L' * (budget - 3)]
+        else:
+            if budget < 5:
+                return None
+            text_prefix = '#. ' + 'L' * (budget - 4) + '\n'
+            fe['comment'] = 'L' * (budget - 4)
+    elif prefix_kind == 'obsolete':
+        unit = lambda i, n: f'#~ msgid "o{i}"\n#~ msgstr "' + 'v' * n + '"\n\n'
+        base = len(unit(0, 0))
+        i = 0
+        remaining = budget
+        while remaining > 0:
+            n = 40
+            u = len(unit(i, n))
+            if remaining < u + base + 8:
+                n = remaining - len(unit(i, 0))
+                if n < 0:
+                    return None
+            e = blank_entry(); e['obsolete'] = True; e['msgid'] = f'o{i}'; e['msgstr'] = 'v' * n
+            cat_entries_before.append(e)
+            text_prefix += unit(i, n)
+            remaining -= len(unit(i, n))
+            i += 1
+    elif prefix_kind in ('entries', 'longstring', 'tcomment'):
+        if feature == 'header':
+            return None          # entries before the header entry: covered by 'obsolete'
+        text_prefix = ''          # filled in after the header entry, below
+    else:
+        return None
+    if len(text_prefix) != budget and prefix_kind not in ('entries', 'longstring') and not (prefix_kind == 'tcomment' and feature != 'header'):
+        return None
+    # ---- assemble
+    if feature == 'header':
+        text = text_prefix + header_lines + ctype_line + header_tail + '\n'
+        header_entry['msgstr'] = hdr_value
+        text += f'msgid "late {nonascii}"\nmsgstr "{esc} end"\n'
+        cat = {'header_comment': '\n'.join(head_comment_lines), 'entries': cat_entries_before + [header_entry, fe]}
+        return cat, text, {'feature_offset': len((text_prefix + header_lines).encode(charset))}
+    # other features: header entry first, then filler, then the feature at S
+    text = header_lines + ctype_line + header_tail + '\n'
+    entries = [header_entry]
+    if prefix_kind in ('blank', 'ignored', 'obsolete', 'longline'):
+        if prefix_kind == 'longline':
+            pass
+        text += text_prefix
+        entries += cat_entries_before
+    elif prefix_kind == 'tcomment':
+        lines = _fill_lines(budget, lambda n: '# ' + 'c' * (n - 3) + '\n', 4)
+        text += ''.join(lines)
+        fe['tcomment'] = '\n'.join(l[2:-1] for l in lines)
+    elif prefix_kind == 'entries':
+        unit = lambda i, n: f'msgid "k{i}"\nmsgstr "' + 'w' * n + '"\n\n'
+        remaining, i = budget, 0
+        while remaining > 0:
+            n = 40
+            if remaining < len(unit(i, n)) + len(unit(i + 1, 0)) + 8:
+                n = remaining - len(unit(i, 0))
+                if n < 0:
+                    return None
+            e = blank_entry(); e['msgid'] = f'k{i}'; e['msgstr'] = 'w' * n
+            entries.append(e)
+            text += unit(i, n)
+            remaining -= len(unit(i, n))
+            i += 1
+    elif prefix_kind == 'longstring':
+        # one entry with a very long msgstr on ONE physical line, ending right before S
+        n = budget - len('msgid "big"\nmsgstr ""\n\n')
+        if n < 0:
+            return None
+        e = blank_entry(); e['msgid'] = 'big'; e['msgstr'] = 's' * n
+        entries.append(e)
+        text += 'msgid "big"\nmsgstr "' + 's' * n + '"\n\n'
+    if len(text) != S and prefix_kind != 'longline':
+        return None
+    off = len(text)
+    if feature == 'obsolete-entry':
+        fe['obsolete'] = True
+        text += f'#~ msgid "late {nonascii}"\n#~ msgstr "{esc} end"\n'
+    elif feature == 'flags':
+        fe['flags'] = ['fuzzy', 'c-format']
+        text += f'#, fuzzy, c-format\nmsgid "late {nonascii}"\nmsgstr "{esc} end"\n'
+    elif feature == 'escape':
+        fe['msgid'] = nonascii + nonascii
+        text += f'msgid "{esc}{esc}"\nmsgstr "{esc} end"\n'
+    else:
+        return None
+    entries.append(fe)
+    return {'header_comment': '', 'entries': entries}, text, {'feature_offset': off}
+
+def boundary_cases(rng, sizes, charsets, per_size=1):
+    """[(charset, prefix_kind, feature, S, variant)] — every size with a random (prefix, feature) combination that exists"""
+    combos = [(p, f) for p in PREFIX_KINDS for f in LATE_FEATURES]
+    out = []
+    for S in sizes:
+        n = 0
+        for _ in range(40):
+            if n >= per_size:
+                break
+            p, f = rng.choice(combos)
+            cs = rng.choice(charsets)
+            v = rng.randrange(1000)
+            if boundary_file(cs, p, f, S, v) is not None:
+                out.append((cs, p, f, S, v)); n += 1
+    return out
